@@ -289,6 +289,7 @@ func show(fm *Frame, v diag.Shower) error {
 func onlyBytes(fm *Frame) error {
 	// Discard values in a goroutine.
 	valuesDone := make(chan struct{})
+	verifRes(verifResGo, 1)
 	go func() {
 		for range fm.inputValues() {
 		}
@@ -304,6 +305,7 @@ func onlyBytes(fm *Frame) error {
 func onlyValues(fm *Frame) error {
 	// Discard bytes in a goroutine.
 	bytesDone := make(chan struct{})
+	verifRes(verifResGo, 1)
 	go func() {
 		// Ignore the error
 		_, _ = io.Copy(blackholeWriter{}, fm.InputFile())
